@@ -100,41 +100,82 @@ def note_distribution(st, recipe, geo, bm):
     if not (geo.gdcx or geo.gdcy): h['untilted (hypothesis of the dircos theorems only)'] += 1
 
 
-def check_batch(ctx, exe, st, cases, label):
-    """cases: list of (recipe, geo, blockmap).  Correspondence + oracle on each."""
-    lines = [L.abstract_line(g, b) for _, g, b in cases]
-    outs = None
-    if exe:
-        try: outs = run_model(exe, lines)
-        except Exception as e:
-            ctx.log('model driver failed on batch', label, repr(e)[:500])
-            ctx.proof_failures.append({'kind': 'harness', 'name': 'model-driver', 'detail': repr(e)[:2000]})
+def sample_of(recipe, geo, bm, grid):
+    return {'recipe': {k: (v if k != 'ops' else [o if o[0] != 'surface' else ['surface', '%d explicit elevations' % len(o[1])] for o in v])
+                       for k, v in recipe.items() if k != 'blockmap'},
+            'blockmap_entries': None if bm is None else len(bm),
+            'columns': geo.num_columns, 'layers': geo.num_layers, 'blocks': grid.num_blocks if grid else None,
+            'connections': grid.num_connections if grid else None}
+
+
+def eval_cases(cases, outs, st, keep=False):
+    """The implementation side of a list of (recipe, geo, blockmap): fromgeo, comparison with the
+    model's result lines `outs` (None: no comparison), oracle.  Pure with respect to ctx: returns
+    one small picklable record per case; counters go to `st`."""
+    res = []
     for i, (recipe, geo, bm) in enumerate(cases):
         grid, err = L.run_impl(geo, bm)
         sc = L.Scales(geo)
-        key = json.dumps(recipe, sort_keys=True, default=str)
         note_distribution(st, recipe, geo, bm)
-        if outs is not None:
-            diffs = L.compare(geo, bm, grid, err, L.parse_model(outs[i]), sc)
-            if diffs:
-                ctx.disagreement(CORR, {'recipe': recipe}, '; '.join(diffs[:4])[:1500], 'see differences (impl side quoted in the text)')
-        fails = []
-        stats = L.oracle(geo, bm, grid, err, sc, lambda k, o, r: fails.append((k, o, r)))
+        diffs = L.compare(geo, bm, grid, err, L.parse_model(outs[i]), sc) if outs is not None else None
+        fails, seen = [], set()
+
+        def fail(k, o, r):
+            if k not in seen:
+                seen.add(k); fails.append((k, o, r))
+        stats = L.oracle(geo, bm, grid, err, sc, fail)
         st.tot.update(stats)
-        ctx.count(key, nontrivial=stats['blocks'] > 0)
-        seen = set()
-        for k, o, r in fails:
-            if k in seen: continue
-            seen.add(k)
-            ctx.failure(ORACLE, k, {'recipe': recipe}, o, r)
-        if len(ctx.samples) < 6:
-            ctx.sample({'recipe': {k: (v if k != 'ops' else [o if o[0] != 'surface' else ['surface', '%d explicit elevations' % len(o[1])] for o in v])
-                                   for k, v in recipe.items() if k != 'blockmap'},
-                        'blockmap_entries': None if bm is None else len(bm),
-                        'columns': geo.num_columns, 'layers': geo.num_layers, 'blocks': grid.num_blocks if grid else None,
-                        'connections': grid.num_connections if grid else None})
-    if outs is not None: ctx.corr_cases(CORR, len(cases))
-    ctx.oracle_cases(ORACLE, len(cases))
+        rec = dict(recipe=recipe, key=json.dumps(recipe, sort_keys=True, default=str), nontrivial=stats['blocks'] > 0,
+                   diffs=diffs, fails=fails, sample=sample_of(recipe, geo, bm, grid))
+        if keep: rec['keep'] = (geo, bm, grid, err, sc)
+        res.append(rec)
+    return res
+
+
+def merge(ctx, res, compared):
+    """Fold the per-case records into ctx (in the deterministic order they are given)."""
+    for r in res:
+        if r['diffs']:
+            ctx.disagreement(CORR, {'recipe': r['recipe']}, '; '.join(r['diffs'][:4])[:1500], 'see differences (impl side quoted in the text)')
+        ctx.count(r['key'], nontrivial=r['nontrivial'])
+        for k, o, rq in r['fails']:
+            ctx.failure(ORACLE, k, {'recipe': r['recipe']}, o, rq)
+        if len(ctx.samples) < 6: ctx.sample(r['sample'])
+    if compared: ctx.corr_cases(CORR, len(res))
+    ctx.oracle_cases(ORACLE, len(res))
+
+
+def model_failed(ctx, label, e):
+    ctx.log('model driver failed on batch', label, str(e)[:500])
+    ctx.proof_failures.append({'kind': 'harness', 'name': 'model-driver', 'detail': str(e)[:2000]})
+
+
+def check_batch(ctx, exe, st, cases, label):
+    """cases: list of (recipe, geo, blockmap).  Correspondence + oracle on each (in this process)."""
+    outs = None
+    if exe:
+        try: outs = run_model(exe, [L.abstract_line(g, b) for _, g, b in cases])
+        except Exception as e: model_failed(ctx, label, repr(e))
+    merge(ctx, eval_cases(cases, outs, st), outs is not None)
+
+
+def shard_worker(args):
+    """One shard of the generated sweep, in a forked worker process: its own random stream
+    (seed drawn by the parent), its own model process; returns picklable records only."""
+    seed, n, big, exe, repo = args
+    rng = random.Random(seed)
+    st = Stats()
+    cases = []
+    for _ in range(n):
+        try: cases.append(L.gen_recipe(rng, repo=repo, big=big))
+        except Exception as e:
+            # building a geometry through the public API failed: not this property's subject, but never silent
+            st.dist['generator-exception:' + type(e).__name__] += 1
+    outs, merr = None, None
+    if exe:
+        try: outs = run_model(exe, [L.abstract_line(g, b) for _, g, b in cases], shards=1)
+        except Exception as e: merr = repr(e)
+    return eval_cases(cases, outs, st), (st.dist, st.tot, st.hyp), merr, outs is not None
 
 
 def generate(ctx, n, st, big=False, kinds=None):
@@ -151,10 +192,11 @@ def generate(ctx, n, st, big=False, kinds=None):
 
 def shipped_cases(ctx, names, variants):
     """The shipped irregular geometries themselves (large): as shipped, and with varied
-    atmosphere type / surfaces / block map."""
+    atmosphere type / surfaces / block map (the two giants g2, g4 -- 29 k blocks, 80 k
+    connections each -- only as shipped)."""
     cases = []
     for nm in names:
-        for v in range(variants):
+        for v in range(1 if nm in ('g2', 'g4') else variants):
             if v == 0:
                 recipe = dict(base=dict(kind='file', name=nm), ops=[], blockmap=None, kind=nm, mode='shipped')
                 geo, bm = L.build_geo(recipe, ctx.repo)
@@ -164,20 +206,54 @@ def shipped_cases(ctx, names, variants):
     return cases
 
 
-def sweep(ctx, exe, st, n_small, shipped, variants, batch=240):
+SHARDS = 4          # logical shards of the generated sweep (fixed: the case set does not depend on VERIF_JOBS)
+
+
+def sweep(ctx, exe, st, n_small, shipped, variants, per=60):
+    """Deterministic in (seed, tier): the shipped cases and one seed per (round, shard) are drawn
+    from ctx.rng up front.  Processes: <= 4 sweep workers (each with one model process) + <= 4
+    model processes for the shipped geometries."""
+    import multiprocessing
+    from concurrent.futures import ProcessPoolExecutor
     t0 = time.time()
     big = shipped_cases(ctx, shipped, variants) if shipped else []
-    # the large shipped geometries run first (their model runs dominate the wall time)
+    rounds = []
+    left = n_small
+    while left > 0:
+        k = min(SHARDS * per, left)
+        rounds.append([(ctx.rng.getrandbits(62), k // SHARDS + (1 if j < k % SHARDS else 0), ctx.thorough, exe, ctx.repo) for j in range(SHARDS)])
+        left -= k
+    half = max(1, vf.NPROC // 2)
+    procs = ProcessPoolExecutor(max_workers=min(SHARDS, half), mp_context=multiprocessing.get_context('fork'))
+    procs.submit(int, 0).result()           # fork the workers before any thread exists in this process
+    futs = [[procs.submit(shard_worker, a) for a in r] for r in rounds]
+    # the model runs of the large shipped geometries dominate the wall time (one case cannot be
+    # sharded): they run in the background on the other half of the cores
+    pool = ThreadPoolExecutor(max_workers=1)
+    bigfut = pool.submit(run_model, exe, [L.abstract_line(g, b) for _, g, b in big], half) if (big and exe) else None
+    bigres = eval_cases(big, None, st, keep=True) if big else []      # meanwhile: fromgeo + oracle on them here
+    if big: ctx.log('shipped geometries: oracle on %d cases (%.0fs)' % (len(big), time.time() - t0))
     done = 0
+    for r, fr in zip(rounds, futs):
+        for f in fr:
+            res, (d, t, h), merr, compared = f.result()
+            if merr: model_failed(ctx, 'generated', merr)
+            merge(ctx, res, compared)
+            st.dist.update(d); st.tot.update(t); st.hyp.update(h)
+            done += len(res)
+        ctx.log('generated geometries checked: %d (%.0fs)' % (done, time.time() - t0))
+    procs.shutdown()
     if big:
-        check_batch(ctx, exe, st, big, 'shipped')
-        ctx.log('shipped geometries: %d cases (%.0fs)' % (len(big), time.time() - t0))
-    while done < n_small:
-        k = min(batch, n_small - done)
-        cases = generate(ctx, k, st, big=ctx.thorough)
-        check_batch(ctx, exe, st, cases, 'random-%d' % done)
-        done += k
-        ctx.log('geometries checked: %d (%.0fs)' % (done + len(big), time.time() - t0))
+        outs = None
+        if bigfut is not None:
+            try: outs = bigfut.result()
+            except Exception as e: model_failed(ctx, 'shipped', repr(e))
+        for i, rec in enumerate(bigres):
+            geo, bm, grid, err, sc = rec.pop('keep')
+            if outs is not None: rec['diffs'] = L.compare(geo, bm, grid, err, L.parse_model(outs[i]), sc)
+        merge(ctx, bigres, outs is not None)
+        ctx.log('shipped geometries: %d cases compared with the model (%.0fs)' % (len(big), time.time() - t0))
+    pool.shutdown()
 
 
 def run(ctx):
@@ -203,9 +279,9 @@ def run(ctx):
     st = Stats()
     seedpick = ['g5', 'g6', 'g1', 'g3'][ctx.seed % 4]
     if ctx.thorough:
-        sweep(ctx, exe, st, 3000, ['g7', 'g1', 'g3', 'g5', 'g6', 'g2', 'g4'], 2)
+        sweep(ctx, exe, st, 3000, ['g2', 'g4', 'g7', 'g1', 'g3', 'g5', 'g6'], 2)
     else:
-        sweep(ctx, exe, st, 200, ['g7', seedpick], 1)
+        sweep(ctx, exe, st, 200, ['g7', seedpick], 1, per=50)
     ctx.extra['input_distribution'] = dict(sorted(st.dist.items()))
     ctx.extra['oracle_totals'] = dict(st.tot)
     ctx.hyp_met = dict(st.hyp)
